@@ -43,7 +43,7 @@ def _wrap(base):
             # the functional clauses of the base contract belong to its own property: only the dependency clause here -
             # plus, for the adaptive neurons, the clauses about the ONE documented coupling: the batch reduction of the
             # learned adaptation runs iff the neuron is adapting (never when adaptation is frozen)
-            c.pending[:] = [p for p in c.pending if p[0] == "safety" or (p[0] == "ensure" and ("adapting" in p[1]))]
+            c.pending[:] = [p for p in c.pending if p[0] == "safety" or (p[0] == "ensure" and ("adapting" in p[1] or "keyword_arguments_reach" in p[1] or "kwargs_routed" in p[1]))]
             if ev:
                 c.info["batch_events"] = "; ".join(sorted({f"{k}: {t}" for k, t in ev}))[:300]
             c.ensure("no_cross_batch_dependence", z3.BoolVal(not ev))
